@@ -235,6 +235,24 @@ def generate(rng, opts):
         for op in motif:
             ops.append(op)
             ex.step(op, None)
+    if rng.random() < 0.03 and "motif" not in swarm:
+        # planted motif: a class declares an alias under the name of a member it would otherwise inherit, and the alias
+        # leads to that very member (`meth = Base.meth`); the consumer API computes inherited members on every lookup
+        swarm["inheritance"] = True
+        swarm["motif"] = "declared-alias-shadows-inherited-member"
+        top = rng.choice(TOPS)
+        base, child, nm = rng.sample(NAMES, 3)
+        how = rng.choice(["tstr", "tobj"])
+        motif = [
+            {"op": "set", "api": "set_member", "form": "name", "on": [top], "value": {"new": "class", "name": base}},
+            {"op": "set", "api": "set_member", "form": "name", "on": [top, base], "value": {"new": rng.choice(["function", "attribute"]), "name": nm}},
+            {"op": "set", "api": "set_member", "form": "name", "on": [top], "value": {"new": "class", "name": child, "bases": [f"{top}.{base}"]}},
+            {"op": "set", "api": rng.choice(["set_member", "setitem"]), "form": rng.choice(KEY_FORMS), "on": [top, child], "value": {"new": "alias", "name": nm, **({"tstr": f"{top}.{base}.{nm}"} if how == "tstr" else {"tobj": [top, base, nm]})}},
+            {"op": "resolve", "alias": [top, child, nm], "how": rng.choice(["target", "final_target", "resolve_target"])},
+        ]
+        for op in motif:
+            ops.append(op)
+            ex.step(op, None)
     kinds = [k for k, w in swarm["w"].items() for _ in range(w)] + (["transfer"] * 2 if swarm["two_collections"] else [])
     for _ in range(swarm["n_ops"]):
         k = rng.choice(kinds)
@@ -286,10 +304,13 @@ class _RecDict(dict):
         super().__init__()
         self.writes = {}
         self.seq = 0
+        self.inherited_writers = set()  # ids of the wrappers of inherited members that registered themselves here
 
     def __setitem__(self, key, value):
         self.seq += 1
         self.writes.setdefault(key, []).append((self.seq, id(value)))
+        if getattr(value, "inherited", False):
+            self.inherited_writers.add(id(value))
         super().__setitem__(key, value)
 
 
@@ -322,8 +343,8 @@ class Executor:
         m = self.model
         if "detached" in spec:
             at_root = len(container_path) == 0
-            # an object with a stale parent cannot become a top-level module (parent is only ever set, never cleared)
-            cands = [n for n in m.detached if (n.kind == "module" and n.parent is m.root) or not at_root]
+            # (only modules are put at the top level of a collection - including former sub-modules)
+            cands = [n for n in m.detached if n.kind == "module" or not at_root]
             if cands:
                 node = cands[spec["detached"] % len(cands)]
                 return node, self.objs.get(node.uid), ["reinsert"]
@@ -1044,7 +1065,10 @@ class Executor:
                             # (only a registration made by its *last* insertion counts: an alias put back where it was
                             # must be listed again, whatever took its entry while it was away)
                             mine = [seq for seq, who in writes if who == id(co) and seq > since]
-                            if reg is not None and mine and writes[-1][1] != id(co):
+                            # (the displacer is a stale alias - one of this history, deleted, replaced or moved away, or a view
+                            # handed out by an earlier lookup through an alias -, not the wrapper of an *inherited* member,
+                            # which has no business at the path of a declared one)
+                            if reg is not None and mine and writes[-1][1] != id(co) and not getattr(reg, "inherited", False):
                                 # this alias did register itself here; later another alias object that lived at this
                                 # path earlier (deleted, replaced or moved away since; entries are never purged)
                                 # re-registered itself and displaced it
